@@ -447,3 +447,55 @@ def r05_6_resolver_slots(ctx: Ctx) -> RuleResult:
         else:
             rr.ok({"getter": ls.fn.qual, "slot": ls.slot})
     return rr
+
+
+# expected shape of the thin entry points and of the two interval-edge resolvers: (function, callee as written after inlining
+# temporaries, {callee parameter: argument text})
+WIRING = [
+    ("LocalDate.at_start_of_day_in_zone", "zone.at_start_of_day", {"date": "self"}),
+    ("LocalDateTime.in_zone_strictly", "zone.at_strictly", {"local_date_time": "self"}),
+    ("LocalDateTime.in_zone_leniently", "zone.at_leniently", {"local_date_time": "self"}),
+    ("LocalDateTime.in_zone", "zone.resolve_local", {"local_date_time": "self", "resolver": "resolver"}),
+    ("DateTimeZone.at_strictly", "self.resolve_local", {"local_date_time": "local_date_time", "resolver": "Resolvers.strict_resolver"}),
+    ("DateTimeZone.at_leniently", "self.resolve_local", {"local_date_time": "local_date_time", "resolver": "Resolvers.lenient_resolver"}),
+    ("__ResolversMeta.return_end_of_interval_before", "ZonedDateTime", {"instant": "interval_before.end - Duration.epsilon", "zone": "zone", "calendar": "local_date_time.calendar"}),
+    ("__ResolversMeta.return_start_of_interval_after", "ZonedDateTime", {"instant": "interval_after.start", "zone": "zone", "calendar": "local_date_time.calendar"}),
+]
+
+
+@rule("C05")
+def r05_8_entry_point_wiring(ctx: Ctx) -> RuleResult:
+    """The convenience entry points are one-liners over the zone's primitives (`at_start_of_day`, `at_strictly`, `at_leniently`,
+    `resolve_local`), which carry the case analysis this property is about (gaps, whole skipped days, ambiguity); the two
+    interval-edge resolvers build their answer through the public ZonedDateTime constructor, which derives the offset from the
+    zone for the instant it is given.  Each must return exactly that call: a re-composition out of other pieces loses a case
+    (a wholly skipped day) or pairs an instant with the offset of the interval it does not belong to."""
+    from ..kit import bind_args, inline_locals
+
+    rr = RuleResult("R05.8", "convenience entry points return the zone primitive's answer; interval-edge resolvers go through the offset-deriving ZonedDateTime constructor with the documented instant", min_instances=8)
+    M = ctx.M
+    for q, callee, want in WIRING:
+        f = M.func(q, required=False)
+        if f is None:
+            raise AnalysisError(f"{q} vanished")
+        rr.inst()
+        rets = [n for n in own_nodes(f.node) if isinstance(n, ast.Return) and n.value is not None]
+        if len(rets) != 1:
+            rr.fail(q, f"has {len(rets)} return statements; expected the single call `{callee}(...)`", ctx.loc(f))
+            continue
+        v = _strip_checks(inline_locals(f.node, rets[0].value))
+        if not (isinstance(v, ast.Call) and unparse(v.func) == callee):
+            rr.fail(q, f"returns `{unparse(v)[:80]}` instead of the answer of `{callee}(...)`", ctx.loc(f, rets[0]))
+            continue
+        tg, how = ctx.R.callees(rets[0].value if isinstance(rets[0].value, ast.Call) else v, f, count=False)
+        t = next((x for x in tg if x.name != "__new__"), None) if tg else None
+        got = {p: unparse(_strip_checks(inline_locals(f.node, a))) for p, a in (bind_args(v, t).items() if t is not None else [(k.arg, k.value) for k in v.keywords])}
+        if t is None:
+            got.update({list(want)[i]: unparse(a) for i, a in enumerate(v.args) if i < len(want)})
+        bad = {p: (got.get(p), w) for p, w in want.items() if got.get(p) != w}
+        if bad:
+            p, (g_, w) = next(iter(bad.items()))
+            rr.fail(q, f"passes `{g_}` as `{p}` of {callee}; the documented value is `{w}`", ctx.loc(f, rets[0]))
+        else:
+            rr.ok({"fn": q, "returns": f"{callee}({', '.join(f'{p}={w}' for p, w in want.items())})"})
+    return rr
